@@ -185,6 +185,10 @@ pub fn partition_witness(adm: &[u64], limit: usize, p: u64) -> Option<Vec<usize>
                 continue;
             }
             // group j..k-1, next cut between adm[k-1] and adm[k]
+            // an instant belongs to exactly one window: equal timestamps are never separated
+            if adm[k - 1] == adm[k] {
+                continue;
+            }
             let earliest = (ej.saturating_add(p as i64)).max(adm[k - 1] as i64);
             if earliest <= adm[k] as i64 {
                 match e[k] {
@@ -468,6 +472,22 @@ async fn interp(case: &RlCase) -> Verdict {
             && adm_t.iter().filter(|&&a| a + p >= t && a < t).count() >= limit
         {
             boundary_full_arrival = true;
+        }
+    }
+    // "otherwise rejected": one instant lies in one window, so a window that already gave out
+    // limit_for_period permits in this very instant has no spare capacity for one more caller
+    {
+        let mut k = 0;
+        while k < adm_t.len() {
+            let same = adm_t[k..].iter().take_while(|&&a| a == adm_t[k]).count();
+            if same > limit {
+                v.c15.push(format!(
+                    "{same} callers were admitted in the single instant t={}, limit_for_period is {limit}: the surplus callers had to wait for a later window or be rejected",
+                    adm_t[k]
+                ));
+                break;
+            }
+            k += same;
         }
     }
     // idle rule: after two full periods without any activity the next `limit` arrivals enter at once
